@@ -1114,6 +1114,18 @@ fn pcf_map(schema: &Map<String, JsonValue>, defined_names: &mut HashSet<String>)
         }
     }
 
+    // Only the attributes the specification lists for this kind of schema are relevant, a custom
+    // attribute can have the same name as an attribute that is relevant for another kind.
+    let relevant_fields: &[&str] = match typ {
+        Some("record") | Some("error") => &["name", "type", "fields"],
+        Some("enum") => &["name", "type", "symbols"],
+        Some("fixed") => &["name", "type", "size"],
+        Some("array") => &["type", "items"],
+        Some("map") => &["type", "values"],
+        // A record field or a primitive type with extra attributes
+        _ => &["name", "type"],
+    };
+
     let mut fields = Vec::new();
     for (k, v) in schema {
         // Reduce primitive types to their simple form. ([PRIMITIVE] rule)
@@ -1125,12 +1137,7 @@ fn pcf_map(schema: &Map<String, JsonValue>, defined_names: &mut HashSet<String>)
         }
 
         // Strip out unused fields ([STRIP] rule)
-        if field_ordering_position(k).is_none()
-            || k == "default"
-            || k == "doc"
-            || k == "aliases"
-            || k == "logicalType"
-        {
+        if !relevant_fields.contains(&k.as_str()) {
             continue;
         }
 
@@ -1143,10 +1150,12 @@ fn pcf_map(schema: &Map<String, JsonValue>, defined_names: &mut HashSet<String>)
         }
 
         // Strip off quotes surrounding "size" type, if they exist ([INTEGERS] rule).
-        if k == "size" || k == "precision" || k == "scale" {
+        if k == "size" {
             let i = match v.as_str() {
-                Some(s) => s.parse::<i64>().expect("Only valid schemas are accepted!"),
-                None => v.as_i64().unwrap(),
+                Some(s) => s.parse::<u64>().expect("Only valid schemas are accepted!"),
+                None => v
+                    .as_u64()
+                    .expect("The size of a fixed schema is a positive integer"),
             };
             fields.push((k, format!("{}:{}", pcf_string(k), i)));
             continue;
